@@ -49,8 +49,14 @@ let sim target old nw nnames inits ops =
     if inits = "." then [] else
     Stdlib.List.concat_map (fun t -> match split ':' t with
       | [nm; hx] -> [OpenTrunc (h0, n_of_int (int_of_string nm)); Write (h0, bytes_of_hex hx); Fsync h0; Close h0]
-      | _ -> failwith "init") (split ';' inits) in
+      | _ -> if Stdlib.String.contains t '=' then [] else failwith "init") (split ';' inits) in
   let st0 = run init_ops empty_fs in
+  (* name=other : a symlink to an existing file, modelled as a second name of the same inode *)
+  let st0 = if inits = "." then st0 else
+    Stdlib.List.fold_left (fun st t -> match split '=' t with
+      | [nm; other] when not (Stdlib.String.contains t ':') ->
+        { st with names = upd st.names (n_of_int (int_of_string nm)) (st.names (n_of_int (int_of_string other))) }
+      | _ -> st) st0 (split ';' inits) in
   let ops = Stdlib.List.map op_of_tok ops in
   let nops = Stdlib.List.length ops in
   let out = Buffer.create 4096 in
